@@ -55,9 +55,41 @@ def workload_meta(wl):
             "recovery": bool(wl.get("recovery")), "family": wl.get("family")}
 
 
+def _gen_container(rng):
+    """A circuit with a container element (general transmission line model with elements of its own inside its
+    sub-circuits): the nested elements are parameters of the fit like any other. Judged by the invariant clauses,
+    the winner model and the parameter table (no recovery claim: the thresholds were calibrated on plain circuits)."""
+    def lu(a, b):
+        return float(f"{10.0 ** rng.uniform(a, b):.6g}")
+
+    t = {"R0": lu(1.3, 2.0), "Rx": lu(0.0, 0.7), "Rz": lu(1.2, 1.8), "Y": lu(-2.6, -2.0), "n": round(rng.uniform(0.75, 0.9), 3)}
+    s0 = {k: (float(f"{v * rng.uniform(0.6, 1.6):.6g}") if k != "n" else round(min(0.95, max(0.6, v + rng.uniform(-0.1, 0.1))), 3)) for k, v in t.items()}
+    fixed = "F" if rng.random() < 0.4 else ""
+
+    def cdc(p, fx=""):
+        return (f"R{{R={p['R0']}}}Tlm{{X_1=[R{{R={p['Rx']}{fx}}}], X_2=short, Z_A=open, Z_B=open, "
+                f"Zeta=[(R{{R={p['Rz']}}}Q{{Y={p['Y']},n={p['n']}}})], L=1F}}")
+
+    n = rng.randint(16, 31)
+    r = rng.random()
+    if r < 0.5:
+        methods, weights = rng.choice(["least_squares", "leastsq"]), rng.choice(["boukamp", "modulus"])
+    else:
+        methods, weights = ["least_squares", "leastsq"], rng.sample(["boukamp", "modulus", "proportional"], 2)
+    return {
+        "entry": "fit_circuit", "family": "R-Tlm", "truth": t, "start": s0, "fixed": [], "boxes": {}, "bound_must_bite": False,
+        "fixed_outside_limits": None, "labelled": False, "recovery": False, "container": True,
+        "data": {"cdc": cdc(t), "logf": [4, -2], "n": n, "noise_pct": rng.choice([0.0, 0.1]), "noise_seed": rng.randrange(10**6),
+                 "mask": gen.mask_indices(rng, n, 0.2), "order": "desc"},
+        "circuit": cdc(s0, fixed), "kwargs": {"method": methods, "weight": weights},
+    }
+
+
 def gen_workload(rng, tier):
     recovery = rng.random() < 0.3
     wl = gen.gen_fit_c12(rng, quick=(tier == "quick"), recovery=recovery)
+    if not recovery and rng.random() < 0.1:
+        wl = _gen_container(rng)
     m, w = wl["kwargs"]["method"], wl["kwargs"]["weight"]
     ms = gen.METHODS if m == "auto" else ([m] if isinstance(m, str) else list(m))
     ws = gen.WEIGHTS if w == "auto" else ([w] if isinstance(w, str) else list(w))
@@ -145,8 +177,9 @@ def check_invariants(wl, result, circuit_before):
     bad = []
     circuit = result.circuit
     start = pyimpspec.parse_cdc(wl["circuit"])
-    elems = circuit.get_elements()
-    elems0 = start.get_elements()
+    # every element including those inside the sub-circuits of container elements
+    elems = list(circuit.generate_element_identifiers(running=True).keys())
+    elems0 = list(start.generate_element_identifiers(running=True).keys())
     if len(elems) != len(elems0):
         return [("invariants", "returned circuit has a different number of elements")]
     active = False
@@ -219,6 +252,11 @@ def _decoy(wl, kind):
     """An earlier analysis in the same process: same topology and data, different flags and limits."""
     extras = {}
     names = sorted(wl["start"])
+    if wl.get("container"):
+        w = dict(wl)
+        w["circuit"] = wl["data"]["cdc"].replace("}", "F}", 1)
+        w["kwargs"] = {"method": "leastsq", "weight": "boukamp", "max_nfev": 20}
+        return w
     if kind == "other_fixed":
         for n in names:
             if n not in wl["fixed"]:
